@@ -99,6 +99,10 @@ class Context(object):
         self.exhaustive = None
         self.notes = []
         self.tmp = tempfile.mkdtemp(prefix="verif-%s-" % pid)
+        # every temporary file of this run (TLC scratch, CBC model files written by pulp, lambdify caches ...) lives
+        # under self.tmp, in this process and in everything it forks or starts; cleanup() removes it
+        os.environ["TMPDIR"] = self.tmp
+        tempfile.tempdir = self.tmp
         self._printed = 0
         self.replay_mode = replay is not None
 
